@@ -52,6 +52,10 @@ func (e *evBackend) index(s string) int {
 func VerifC13Takeover() {
 	be := &evBackend{recBackend: newRecBackend()}
 	clean1, clean2 := vBool("clean1"), vBool("clean2")
+	full := vBool("fullwindow") // inflight window of 1, so one unacknowledged message fills it
+	if full {
+		be.ClientInflightMessages = 1
+	}
 	conn1 := newVConn(false)
 	c1 := NewClient(be, conn1)
 	c1.Ref = "1"
@@ -68,6 +72,11 @@ func VerifC13Takeover() {
 		vAssert(be.MemoryBackend.Publish(pub, &packet.Message{Topic: "t", Payload: []byte{1}, QOS: 1}, nil) == nil, "publish")
 		vQuiesce()
 		vAssert(countType(conn1, packet.PUBLISH) == 1, "message in flight towards the old connection")
+		if full { // the window (1) is full: a second message stays queued, the dequeuer waits for a slot
+			vAssert(be.MemoryBackend.Publish(pub, &packet.Message{Topic: "t", Payload: []byte{2}, QOS: 1}, nil) == nil, "publish")
+			vQuiesce()
+			vAssert(countType(conn1, packet.PUBLISH) == 1, "window of 1 respected")
+		}
 	}
 	sess1 := c1.session.(*memorySession)
 	// the old connection may die by itself at the same moment
@@ -108,6 +117,15 @@ func VerifC13Takeover() {
 		if inflight {
 			vAssert(len(out) == 1, "the in-flight message is still recorded, once")
 			vAssert(countType(conn2, packet.PUBLISH) == 1, "and is retransmitted to the newcomer, once")
+			if full {
+				first, _ := conn2.sentAt(1).(*packet.Publish)
+				vAssert(first != nil && first.Dup && first.Message.Payload[0] == 1, "the retransmission is the in-flight message, flagged duplicate")
+				conn2.in <- &packet.Puback{ID: first.ID}
+				vQuiesce()
+				vAssert(countType(conn2, packet.PUBLISH) == 2, "the queued message passes to the newcomer and is delivered once a slot is free")
+				second, _ := conn2.sentAt(2).(*packet.Publish)
+				vAssert(second != nil && !second.Dup && second.Message.Payload[0] == 2, "it is the queued message, as a new delivery")
+			}
 		} else {
 			vAssert(len(out) == 0 && countType(conn2, packet.PUBLISH) == 0, "nothing invented")
 		}
